@@ -54,6 +54,13 @@ package main
 //	    (ErrIgnoreOldFrame; galene installs no error handler).
 //	recovered-frame-padded, packet-not-fetched-from-cache
 //	    Self-evident from the sample / from the GetPacket calls observed.
+//	wrong-doctype:after-mkv-recording, wrong-doctype
+//	    The EBML header of the file names another document type than the one
+//	    that goes with the codecs recorded (webm for Opus/VP8/VP9, matroska
+//	    for H264).  Nothing in a session's packets or their delivery decides
+//	    the document type, so the delivery class is no part of the key; what
+//	    is: whether an earlier session of the same process had left a
+//	    Matroska (.mkv) recording behind when this one began.
 
 import (
 	"fmt"
@@ -632,6 +639,12 @@ func (s *session) attribute(v *verdict, rerun func() (*session, *verdict)) {
 	for _, f := range v.findings {
 		if f.symptom == "recovered-frame-padded" {
 			f.key = "recovered-frame-padded"
+		}
+		if f.symptom == "wrong-doctype" {
+			f.key = "wrong-doctype"
+			if s.afterMkv >= 0 && s.p.Video != "h264" {
+				f.key = "wrong-doctype:after-mkv-recording"
+			}
 		}
 		if (f.symptom == "frame-missing" || f.symptom == "not-flushed") && f.trk >= 0 && f.frame >= 0 {
 			t := s.trackById(f.trk)
